@@ -1,12 +1,15 @@
 #!/usr/bin/env python3
-"""Rewrites the block between <!-- COVERAGE-BEGIN --> and <!-- COVERAGE-END --> in DESIGN.md from evidence/*.json."""
+"""Rewrites the block between <!-- COVERAGE-BEGIN --> and <!-- COVERAGE-END --> in DESIGN.md from evidence/*.json
+(the last committed run of every check) and evidence-thorough/*.json (snapshot of the last full thorough run)."""
 import json,glob,re
-rows=[]
-for f in sorted(glob.glob('/verif/evidence/C*.json')):
-    e=json.load(open(f)); c=e['coverage']
-    rows.append('| %s | %s | %s | %s | %s | %s | %s | %s | %s | %.0f s |'%(e['property_id'],e['tier'],e['level'],f"{c['evaluations']:,}",f"{c['distinct_nontrivial']:,}",
-        f"{c.get('states',0):,}" if c.get('states') else '-', f"{c.get('transitions',0):,}" if c.get('transitions') else '-', c.get('traces_validated_against_impl','-') if c.get('traces_validated_against_impl') else '-', 'yes' if c['exhaustive'] else 'NO', e['wall_s']))
-tab='| id | tier | level | evaluations | distinct non-trivial | states | transitions | binary runs | bounded space exhausted | wall |\n|---|---|---|---|---|---|---|---|---|---|\n'+'\n'.join(rows)
+def table(pattern):
+    rows=[]
+    for f in sorted(glob.glob(pattern)):
+        e=json.load(open(f)); c=e['coverage']
+        rows.append('| %s | %s | %s | %s | %s | %s | %s | %s | %s | %.0f s |'%(e['property_id'],e['tier'],e['level'],f"{c['evaluations']:,}",f"{c['distinct_nontrivial']:,}",
+            f"{c.get('states',0):,}" if c.get('states') else '-', f"{c.get('transitions',0):,}" if c.get('transitions') else '-', c.get('traces_validated_against_impl','-') if c.get('traces_validated_against_impl') else '-', 'yes' if c['exhaustive'] else 'NO', e['wall_s']))
+    return '| id | tier | level | evaluations | distinct non-trivial | states | transitions | binary runs | bounded space exhausted | wall |\n|---|---|---|---|---|---|---|---|---|---|\n'+'\n'.join(rows)
+tab=table('/verif/evidence/C*.json')+'\n\nThorough tier (snapshot `evidence-thorough/`, written by the last full thorough run against the repository):\n\n'+table('/verif/evidence-thorough/evidence-thorough-C*.json')
 p='/verif/DESIGN.md'
 s=open(p).read()
 blk='<!-- COVERAGE-BEGIN -->\n'+tab+'\n<!-- COVERAGE-END -->'
